@@ -259,7 +259,7 @@ BIG = b'Subject: big\r\n\r\n' + b'x' * 5000
 PROGRAMS.append([[b'APPEND ', ('S', b'Sent'), b' ', ('L', BIG)], [b'STATUS ', ('S', b'Sent'), b' (MESSAGES)'],
                  [b'SELECT ', ('S', b'Sent')], [b'SEARCH SUBJECT ', ('S', b'y' * 4000)], [b'SEARCH LARGER 4000']])
 LOGIN = [b'LOGIN ', ('S', b'testuser'), b' ', ('S', b'testpass')]
-SPELLINGS = ('atom', 'quoted', 'sync', 'nonsync')
+SPELLINGS = ('atom', 'quoted', 'sync', 'nonsync', 'mixed-sn', 'mixed-ns', 'mixed-qs')      # mixed: alternating per argument
 CASES = ('asis', 'lower', 'mixed')
 
 
@@ -281,8 +281,12 @@ def render(cmd, spelling, case):
             continue
         kind, v = tok
         sp = spelling
+        if spelling.startswith('mixed'):
+            nth = sum(1 for t in cmd[:k] if not isinstance(t, bytes))
+            a, b = {'mixed-sn': ('sync', 'nonsync'), 'mixed-ns': ('nonsync', 'sync'), 'mixed-qs': ('quoted', 'sync')}[spelling]
+            sp = a if nth % 2 == 0 else b
         if kind == 'L':
-            sp = 'sync' if spelling in ('sync', 'atom') else 'nonsync'
+            sp = 'sync' if sp in ('sync', 'atom') else 'nonsync'
         if sp == 'atom' and (kind == 'Q' or not (v and ATOM_OK.match(v))):
             sp = 'quoted'
         if sp == 'atom':
